@@ -134,7 +134,7 @@ def mon_c04(case, obs, prefix):
                         bad.append((i, "UP SEID %d addresses a session of another CP SEID" % f))
                     if any(r[0] == f for r in prev_dp):
                         bad.append((i, "UP SEID %d re-issued while rules of its previous session are still installed" % f))
-        if m["k"] in ("mod", "del"):
+        if m["k"] in ("mod", "del") and not o.get("panicked"):
             target = live(prev, m["seid"])
             bad_nid = m["k"] == "mod" and (m.get("nid") or {}).get("bad")
             want = "modrsp" if m["k"] == "mod" else "delrsp"
@@ -1005,7 +1005,9 @@ def directed_c13(rnd):
         return {"t": "recv", "peer": peer, "seq": seq, "msg": msg, "fail": [], "usage": []}
     out = []
     for n in (511, 512, 513, 700):
-        items = [{"dld": {"pdr": 1 + (k % 2 if n == 700 else 0), "action": 4 | (8 if k == 0 else 0), "pkt": "%04x" % k}} for k in range(n)]
+        # every item carries NOCP: ServeReport stops at the first buffer item WITHOUT it, so a batch of plain BUFF items
+        # would push one packet only (the first version of this scenario did just that and exercised nothing)
+        items = [{"dld": {"pdr": 1 + (k % 2 if n == 700 else 0), "action": 12, "pkt": "%04x" % k}} for k in range(n)]
         evs = [rc(0, 1, {"k": "asr", "nid": {"v": 0}}),
                rc(0, 2, {"k": "est", "nid": {"v": 0}, "fseid": {"v": 10}, "ops": {"cFAR": [1], "cPDR": [{"id": 1, "urrs": [], "ueip": False}]}}),
                {"t": "report", "seid": 1, "items": [{"dld": {"pdr": 1, "action": 12, "pkt": "ffff"}}], "fail": [], "usage": []},
